@@ -25,6 +25,8 @@ def run_one(name, tier):
     sd = HERE / "seeded" / name
     meta = json.loads((sd / "meta.json").read_text())
     own = name.split("-")[0]
+    if meta.get("retired"):
+        return [(own, "RETIRED", 0.0, ["no longer breaks the property, see meta.json"])]
     props = [own] + [p for p, v in meta.get("confirmed", {}).get("checks", {}).items()
                      if v.get("result") == "CAUGHT" and p != own]
     wt = Path(f"/tmp/verif-reseed-{os.getpid()}-{name[:40]}")
